@@ -97,9 +97,18 @@ impl Backend {
             return Ok(None);
         };
 
-        // Find the matching definition by file path
-        let Some(definition) = defs.iter().find(|d| d.file_path == file_path) else {
-            return Ok(None);
+        // Find the matching definition: the one on the item's own line (a file may define the
+        // name more than once), otherwise the first one in the file
+        let item_line = Self::lsp_line_to_internal(item.selection_range.start.line);
+        let definition = match defs
+            .iter()
+            .find(|d| d.file_path == file_path && d.line == item_line)
+        {
+            Some(d) => d,
+            None => match defs.iter().find(|d| d.file_path == file_path) {
+                Some(d) => d,
+                None => return Ok(None),
+            },
         };
 
         // Find all references to this fixture
@@ -175,9 +184,18 @@ impl Backend {
             return Ok(None);
         };
 
-        // Find the matching definition by file path
-        let Some(definition) = defs.iter().find(|d| d.file_path == file_path) else {
-            return Ok(None);
+        // Find the matching definition: the one on the item's own line (a file may define the
+        // name more than once), otherwise the first one in the file
+        let item_line = Self::lsp_line_to_internal(item.selection_range.start.line);
+        let definition = match defs
+            .iter()
+            .find(|d| d.file_path == file_path && d.line == item_line)
+        {
+            Some(d) => d,
+            None => match defs.iter().find(|d| d.file_path == file_path) {
+                Some(d) => d,
+                None => return Ok(None),
+            },
         };
 
         let mut outgoing_calls: Vec<CallHierarchyOutgoingCall> = Vec::new();
